@@ -3,107 +3,114 @@
    the functions of the hand-written model Model/Fit.v, for ALL arguments (both sides are uint64
    arithmetic wrapping at 2^64; the base address is the constant consts.BasePhysAddr on the Go side
    and Gen.Consts.fit_base_phys_addr on the model side).  See Proofs/KernelTie.v. *)
-From Fiano Require Import Base.Bytes Base.GoInt Gen.Consts Gen.GoKernels Model.Fit.
+From Fiano Require Import Base.Bytes Base.BytesLemmas Base.GoInt Gen.Consts Gen.GoKernels Model.Fit.
+From Coq Require Import ZifyBool ZifyNat.
 Open Scope Z_scope.
+Set Default Timeout 120.
 
 Lemma go_CalculatePhysAddrFromOffset_tie off size :
   go_CalculatePhysAddrFromOffset off size = Fit.phys_of_offset off size.
-Proof. reflexivity. Qed.
+Proof. unfold go_CalculatePhysAddrFromOffset, Fit.phys_of_offset, Fit.w64, fit_base_phys_addr. go_arith. Qed.
 
 Lemma go_CalculateOffsetFromPhysAddr_tie addr size :
   go_CalculateOffsetFromPhysAddr addr size = Fit.offset_of_phys addr size.
-Proof. reflexivity. Qed.
+Proof. unfold go_CalculateOffsetFromPhysAddr, Fit.offset_of_phys, Fit.w64, fit_base_phys_addr. go_arith. Qed.
 
 Lemma go_CalculateTailOffsetFromPhysAddr_tie addr :
   go_CalculateTailOffsetFromPhysAddr addr = Fit.tail_offset_of_phys addr.
-Proof. reflexivity. Qed.
+Proof. unfold go_CalculateTailOffsetFromPhysAddr, Fit.tail_offset_of_phys, Fit.w64, fit_base_phys_addr. go_arith. Qed.
 
 (* ---------------------------------------------------------------- *)
 (* entry_headers.go: Address64, Uint24, TypeAndIsChecksumValid, data segment size *)
 (* ---------------------------------------------------------------- *)
-From Fiano Require Import Base.BytesLemmas.
-From Coq Require Import ZifyBool ZifyNat.
 
 (* a changed kernel must make a tie lemma FAIL, not make a conversion check run for an hour *)
 Set Default Timeout 120.
 
 Lemma go_Address64_Offset_tie addr size : go_Address64_Offset addr size = Fit.offset_of_phys addr size.
-Proof. reflexivity. Qed.
+Proof.
+  unfold go_Address64_Offset. try unfold go_Address64_Pointer.
+  first [ apply go_CalculateOffsetFromPhysAddr_tie
+        | unfold Fit.offset_of_phys, Fit.w64, fit_base_phys_addr; go_arith ].
+Qed.
 
 (* SetOffset: the new value of the address (the old one is not read) *)
 Lemma go_Address64_SetOffset_tie old off size : go_Address64_SetOffset old off size = Fit.phys_of_offset off size.
-Proof. reflexivity. Qed.
+Proof.
+  unfold go_Address64_SetOffset. cbv zeta.
+  first [ apply go_CalculatePhysAddrFromOffset_tie
+        | unfold Fit.phys_of_offset, Fit.w64, fit_base_phys_addr; go_arith ].
+Qed.
 
 (* Uint24{Value [3]byte}: the value is a list of three bytes *)
-Lemma go_Uint24_Uint32_tie a b c : go_Uint24_Uint32 [a; b; c] = Ok (Fit.u24_get [a; b; c]).
-Proof. reflexivity. Qed.
+Lemma go_Uint24_Uint32_tie a b c : 0 <= a < 256 -> 0 <= b < 256 -> 0 <= c < 256 ->
+  go_out (go_Uint24_Uint32 [a; b; c]) = Ok (Fit.u24_get [a; b; c]).
+Proof.
+  intros Ha Hb Hc. cbv [go_out go_out_pure go_out_m].
+  first [ reflexivity
+        | unfold go_Uint24_Uint32, Fit.u24_get; change (zfirstn 3 [a; b; c]) with [a; b; c];
+          cbn [nth app le_dec]; f_equal; go_arith ].
+Qed.
 
 (* SetUint32: the new contents of Value; a value of 2^24 or more panics on both sides (site 1) *)
-Lemma go_Uint24_SetUint32_tie a b c v : go_Uint24_SetUint32 [a; b; c] v = Fit.u24_set v.
+Lemma go_Uint24_SetUint32_tie a b c v : 0 <= v < 2 ^ 32 ->
+  go_out (go_Uint24_SetUint32 [a; b; c] v) = Fit.u24_set v.
 Proof.
-  unfold go_Uint24_SetUint32, Fit.u24_set. change (2 ^ 24) with 16777216.
-  destruct (16777216 <=? v); reflexivity.
+  intros Hv. cbv [go_out go_out_pure go_out_m]. unfold go_Uint24_SetUint32, Fit.u24_set. cbv zeta.
+  change (2 ^ 24) with 16777216.
+  change (zfirstn 3 (le_enc 4 v)) with [v mod 256; (v / 256) mod 256; (v / 256 / 256) mod 256].
+  repeat match goal with |- context [if ?c then _ else _] => destruct c eqn:? end;
+    try reflexivity; try go_absurd;
+    f_equal;
+    repeat match goal with |- _ :: _ = _ :: _ => apply f_equal2 | |- [] = [] => reflexivity end;
+    go_arith.
 Qed.
 
 Lemma go_TypeAndIsChecksumValid_Type_tie f : go_TypeAndIsChecksumValid_Type f = Fit.tc_type f.
-Proof. reflexivity. Qed.
+Proof. first [ reflexivity | unfold go_TypeAndIsChecksumValid_Type, Fit.tc_type; go_arith ]. Qed.
 
 Lemma go_TypeAndIsChecksumValid_IsChecksumValid_tie f :
   go_TypeAndIsChecksumValid_IsChecksumValid f = Fit.tc_cv f.
-Proof. reflexivity. Qed.
+Proof. first [ reflexivity | unfold go_TypeAndIsChecksumValid_IsChecksumValid, Fit.tc_cv; f_equal; f_equal; go_arith ]. Qed.
 
-Definition fit_byte_values : list Z := map Z.of_nat (seq 0 256).
-Lemma fit_byte_values_in a : 0 <= a < 256 -> In a fit_byte_values.
-Proof.
-  intros Ha. unfold fit_byte_values. apply in_map_iff. exists (Z.to_nat a). split; [lia|].
-  apply in_seq. lia.
-Qed.
-Lemma byte_sweep (P : Z -> bool) : forallb P fit_byte_values = true -> forall a, 0 <= a < 256 -> P a = true.
-Proof. intros H a Ha. rewrite forallb_forall in H. apply H, fit_byte_values_in, Ha. Qed.
 
 (* SetType on bytes: the test "newType has no bit above 0x7f" and the kept C_V bit, each by a
    sweep over one byte; a type above 0x7f panics on both sides (the model calls the site 2) *)
+(* SetType on bytes, by a sweep over both bytes: the new value of the field, or a panic on both sides
+   for a type above 0x7f *)
 Lemma go_TypeAndIsChecksumValid_SetType_tie f t : 0 <= f < 256 -> 0 <= t < 256 ->
-  go_TypeAndIsChecksumValid_SetType f t =
-  match Fit.tc_set_type f t with Panic _ => Panic 1 | o => o end.
+  outcome_agree (go_out (go_TypeAndIsChecksumValid_SetType f t)) (Fit.tc_set_type f t).
 Proof.
-  intros Hf Ht. unfold go_TypeAndIsChecksumValid_SetType, Fit.tc_set_type. cbv zeta.
-  assert (H1 : (Z.land (wrap 64 t) 18446744073709551488 =? 0) = (Z.land t 127 =? t)).
-  { apply (byte_sweep (fun t => Bool.eqb (Z.land (wrap 64 t) 18446744073709551488 =? 0) (Z.land t 127 =? t))
-             ltac:(vm_compute; reflexivity)) in Ht. apply eqb_prop in Ht. exact Ht. }
-  assert (H2 : wrap 8 (Z.land (wrap 64 f) 18446744073709551488) = Z.land f 128).
-  { apply (byte_sweep (fun f => wrap 8 (Z.land (wrap 64 f) 18446744073709551488) =? Z.land f 128)
-             ltac:(vm_compute; reflexivity)) in Hf. lia. }
-  rewrite H1, H2. destruct (Z.land t 127 =? t); reflexivity.
+  intros Hf Ht. apply out_eqb_agree.
+  apply (go_sweep2 (fun f t => out_eqb (go_out (go_TypeAndIsChecksumValid_SetType f t)) (Fit.tc_set_type f t)));
+    [vm_compute; reflexivity | exact Hf | exact Ht].
 Qed.
 
 Lemma go_TypeAndIsChecksumValid_SetIsChecksumValid_tie f v : 0 <= f < 256 ->
-  go_TypeAndIsChecksumValid_SetIsChecksumValid f v = Fit.tc_set_cv f v.
+  go_out (go_TypeAndIsChecksumValid_SetIsChecksumValid f v) = Ok (Fit.tc_set_cv f v).
 Proof.
-  intros Hf. unfold go_TypeAndIsChecksumValid_SetIsChecksumValid, Fit.tc_set_cv. cbv zeta.
-  assert (H : wrap 8 (Z.land (wrap 64 f) 127) = Z.land f 127).
-  { apply (byte_sweep (fun f => wrap 8 (Z.land (wrap 64 f) 127) =? Z.land f 127)
-             ltac:(vm_compute; reflexivity)) in Hf. lia. }
-  rewrite H. destruct v; reflexivity.
+  intros Hf. apply out_eqb_ok.
+  destruct v;
+    [ apply (go_sweep1 (fun f => out_eqb (go_out (go_TypeAndIsChecksumValid_SetIsChecksumValid f true)) (Ok (Fit.tc_set_cv f true))))
+    | apply (go_sweep1 (fun f => out_eqb (go_out (go_TypeAndIsChecksumValid_SetIsChecksumValid f false)) (Ok (Fit.tc_set_cv f false)))) ];
+    first [ vm_compute; reflexivity | exact Hf ].
 Qed.
 
 (* the most common data segment size: Size.Uint32() << 4 as uint64 (no truncation: the 24-bit
    value times 16 is below 2^28).  The model writes [hsz h * 16]. *)
 Lemma go_EntryHeaders_mostCommonGetDataSegmentSize_tie a b c :
   0 <= a < 256 -> 0 <= b < 256 -> 0 <= c < 256 ->
-  go_EntryHeaders_mostCommonGetDataSegmentSize [a; b; c] = Ok (Fit.u24_get [a; b; c] * 16).
+  go_out (go_EntryHeaders_mostCommonGetDataSegmentSize [a; b; c]) = Ok (Fit.u24_get [a; b; c] * 16).
 Proof.
-  intros Ha Hb Hc. unfold go_EntryHeaders_mostCommonGetDataSegmentSize.
-  rewrite go_Uint24_Uint32_tie. cbn [bind].
+  intros Ha Hb Hc.
+  pose proof (go_Uint24_Uint32_tie a b c Ha Hb Hc) as HU.
+  cbv [go_out go_out_pure go_out_m] in *. unfold go_EntryHeaders_mostCommonGetDataSegmentSize.
+  first [ rewrite HU; cbn [bind] | injection HU as HU; rewrite HU ].
   assert (Hr : 0 <= Fit.u24_get [a; b; c] < 2 ^ 24).
   { unfold Fit.u24_get. change (zfirstn 3 [a; b; c]) with [a; b; c]. cbn [app le_dec]. lia. }
-  unfold go_shl. rewrite (wrap_small 64 (Fit.u24_get [a; b; c])) by lia. rewrite Z.shiftl_mul_pow2 by lia.
-  rewrite wrap_small by lia. reflexivity.
+  f_equal. set (x := Fit.u24_get [a; b; c]) in *. go_arith.
 Qed.
 
 (* SizeM16.Size (size in units of 16 bytes); no model function: stated for the record *)
 Lemma go_SizeM16_Size_eq s : 0 <= s < 65536 -> go_SizeM16_Size s = s * 16.
-Proof.
-  intros Hs. unfold go_SizeM16_Size, go_shl. rewrite (wrap_small 64 s) by lia.
-  rewrite Z.shiftl_mul_pow2 by lia. rewrite wrap_small by lia. reflexivity.
-Qed.
+Proof. intros Hs. unfold go_SizeM16_Size. go_arith. Qed.
